@@ -222,6 +222,13 @@ func checkC18(r *harness.Run) harness.Coverage {
 		exprs = append(exprs, e)
 		lowers = append(lowers, lowerFirst(toks))
 	}
+	// filters whose condition also holds for a null element (a nil *Leaf inside []*Leaf), bare and continued
+	for _, e := range []string{"Ps[?!S]", "Ps[?!B]", "Ps[?S != 'zz']", "Ps[?N != `99`]", "Ps[?S == `null`]", "length(Ps[?!S])", "Ps[?!S] | length(@)", "Next.Ps[?!S]", "Ls[?!B]", "Ps[?@ == `null`]", "Ps[?!@]",
+		"Ps[?S != 'zz'].S", "Strs[?@ != 'zz']", "Nums[?@ != `99`]", "Ps[?!S][0]", "Ps[?!S] == `[]`", "Ps[?!S || !N]", "Ps[?`true`]", "Ps[?`true`].S", "Ls[?`true`]", "Ps[?!S] | [0]", "[Ps[?!S], Ls[?!B]]"} {
+		toks := univ.Lx(e)
+		exprs = append(exprs, e)
+		lowers = append(lowers, lowerFirst(toks))
+	}
 	docs := goDocs(r.Thorough())
 	gens := make([]interface{}, len(docs))
 	for i := range docs {
